@@ -39,7 +39,7 @@ def _make(ctx, n, nparts, ftype, strand):
         pass
     # qualifier values as a parser gives them (lists of strings) and as scripts write them (plain string, number, tuple)
     quals = QUALS()
-    feat = build_feature(st, parts, ftype, QUALS(), fid="fid1")
+    feat = build_feature(st, parts, ftype, QUALS(), fid="fid1", operator=ctx.P.get("operator", "join"), fuzzy=ctx.P.get("fuzzy"))
     track = ctx.mk.track("q", n)
     ann = {"topology": "circular", "organism": "E. coli", "k": [1, 2]}
     if ctx.P.get("history"):
@@ -115,6 +115,13 @@ def ob_rotate(ctx):
     ctx.require(g.type == P["ftype"] and g.id == "fid1", "feature-type-id")
     ctx.require(quals_equal(g.qualifiers, quals), "feature-qualifiers")
     _same_denotation(ctx, parts, parts_of(g), k, n, "feature")
+    # the rest of the location's shape: how its parts are combined (join/order) and which ends are open ('<5', '>9')
+    if len(parts) > 1:
+        ctx.require(getattr(g.location, "operator", None) == P.get("operator", "join"), "location-operator-changed")
+    if P.get("fuzzy"):
+        want = [({"e": "exact", "b": "before", "a": "after"}[fz[0]], {"e": "exact", "b": "before", "a": "after"}[fz[1]])
+                for fz in P["fuzzy"]]
+        ctx.require(location_kinds(g) == want, "open-ended-position-became-exact")
     # identity on multiples of n: coordinates unchanged
     kz = Eq(mod(k, n), 0)
     for (s, e, _), (s2, e2, _) in zip(parts, parts_of(g)):
@@ -258,6 +265,16 @@ def obligations(tier, seed):
         obs.append(Ob("rotate a record that was rotated, then edited in place n=%d" % n, ob_rotate,
                       dict(n=n, parts=1, ftype="misc_feature", strand="sym", history=True), samples=4,
                       cost=3 * n, group="history"))
+    for n in tier_pick(tier, (5, 9), (4, 7, 12, 18)):
+        obs.append(Ob("rotate n=%d parts=2 combined by order(...)" % n, ob_rotate,
+                      dict(n=n, parts=2, ftype="misc_feature", strand="sym", operator="order"), samples=4, cost=4 * n,
+                      group="location shape"))
+        obs.append(Ob("rotate n=%d parts=1 with open ends <s..>e" % n, ob_rotate,
+                      dict(n=n, parts=1, ftype="misc_feature", strand="sym", fuzzy=["ba"]), samples=4, cost=n,
+                      group="location shape"))
+        obs.append(Ob("rotate n=%d parts=2 with open ends <s..e, s..>e" % n, ob_rotate,
+                      dict(n=n, parts=2, ftype="CDS", strand="sym", fuzzy=["be", "ea"]), samples=4, cost=4 * n,
+                      group="location shape"))
     for n in (1, 3, 6):
         obs.append(Ob("locationless n=%d" % n, ob_nofeature_location, dict(n=n), samples=3, cost=n))
     return obs
